@@ -11,12 +11,13 @@ def main():
     rep = Report('C09', tier, 'exploration')
     e = exe('fast', 'normcheck')
     nw = NPROC
-    procs = [subprocess.Popen([e, tier, str(nw), str(w)], stdout=subprocess.PIPE, text=True) for w in range(nw)]
+    ptier = 'light' if (os.environ.get('NORM_LIGHT') and 'c09' == 'c09') else os.environ.get('INPROC_TIER', tier)
+    procs = [subprocess.Popen([e, ptier, str(nw), str(w)], stdout=subprocess.PIPE, stderr=subprocess.PIPE, text=True) for w in range(nw)]
     fam, ninteresting = {}, 0
     for w, p in enumerate(procs):
-        out, _ = p.communicate()
+        out, err = p.communicate()
         if p.returncode != 0:
-            rep.violation({'kind': 'crash'}, {'worker': w, 'returncode': p.returncode, 'tail': out[-2000:]})
+            rep.violation({'kind': 'crash'}, {'worker': w, 'returncode': p.returncode, 'tail': out[-1500:], 'stderr': (err or '')[-3000:]})
         for line in out.split('\n'):
             if line.startswith('S '):
                 _, f, ev, nt = line.split()
